@@ -3,6 +3,7 @@ import PMV.Model.MiniString
 import PMV.Spec.StrLex
 import PMV.Generated.Strings
 import PMV.Proofs.MiniString
+import PMV.Model.Shebang
 namespace PMV.Driver.Strings
 open PMV PMV.Driver PMV.MiniString
 
@@ -30,5 +31,20 @@ def strlex (args : List Sexp) : Option String := do
 
 def escViolations (_ : List Sexp) : Option String :=
   some (if EscOK Generated.escTable then "()" else "(EscOK-fails)")
+
+end PMV.Driver.Strings
+
+namespace PMV.Driver.Strings
+open PMV PMV.Driver
+
+/-- `shebang <codepoints>` → the match of the model, or `none` -/
+def shebang (args : List Sexp) : Option String := do
+  match args with
+  | [s] =>
+    let s ← cps? s
+    match Shebang.findShebang s with
+    | some m => pure (encCps m)
+    | none => pure "none"
+  | _ => none
 
 end PMV.Driver.Strings
